@@ -299,6 +299,29 @@ def run_selfvalidation(ctx, pid):
             ctx.ob("variant:" + vid, "pta/variants.py", INFO, "skipped, anchor text no longer present: " + msg)
         else:
             ctx.ob("variant:" + vid, "pta/variants.py", ERROR, "checker self-validation failed: " + msg)
+    # behaviour-preserving refactorings of every function in the property's scope must leave the check silent
+    from . import refactor
+    n_ref, alarms = refactor.sweep_property(pid)
+    ctx.cur_rule = "REFACTOR"
+    if alarms:
+        for qual, mode, code, what in alarms[:10]:
+            ctx.ob("refactoring:%s:%s" % (mode, qual), "pta/refactor.py", ERROR, "the check alarms (exit %d) on a behaviour-preserving `%s` of %s: %s" % (code, mode, qual, what))
+    else:
+        ctx.ob("refactorings", "pta/refactor.py", DISCHARGED, "%d behaviour-preserving variants (%s; one function at a time, every function in scope): the check stays silent on all" % (n_ref, ", ".join(sorted(refactor.MODES))), True)
+    # detection power, as information: single-token mutants of the property's anchor files under this check
+    from . import mutants
+    try:
+        with open(os.path.join(VERIF, "properties.jsonl")) as fh:
+            anchors = [json.loads(l) for l in fh]
+        files = next((p_["anchors"]["files"] for p_ in anchors if p_["id"] == pid), [])
+    except OSError:
+        files = []
+    m_all, m_viol, m_inc, m_silent = mutants.score_property(pid, files)
+    ctx.cache["mutation_score"] = {"files": sorted(files), "mutants": m_all, "reported_violation": m_viol, "reported_inconclusive": m_inc, "silent": m_silent,
+                                   "note": "single-token mutants of the anchor files run against this property's check alone; silent ones are equivalent mutants, "
+                                           "code outside this property, or blind spots (triage in seeded/MUTANTS.md); informational, never a verdict"}
+    ctx.ob("mutation-score", "pta/mutants.py", INFO, "%d single-token mutants of %s: %d reported as violation, %d as inconclusive, %d silent" % (m_all, ", ".join(sorted(files)), m_viol, m_inc, m_silent))
+    ctx.cur_rule = "SELFTEST"
     # the confirmed seeded changes written against this property must still be reported
     from . import seeds
     sres, sfails = seeds.run(pid, jobs=16, verbose=False)
@@ -389,6 +412,7 @@ def write_evidence(pid, tier, ctx, new_viol, t0, error=None):
                 "frozen_minimums": ctx.counts,
                 "source_digest": ctx.P.digest(),
                 "repo": os.environ.get("VERIF_REPO", "/repo"),
+                **({"mutation_score": ctx.cache["mutation_score"]} if "mutation_score" in ctx.cache else {}),
             },
             "assumptions": propdoc.ASSUMPTIONS,
             "wall_s": round(time.time() - t0, 3),
